@@ -85,6 +85,7 @@ __attribute__((visibility("default"))) int connect(int fd, const struct sockaddr
     return real(fd, addr, len);
 }
 
+#ifndef REC_NO_ALLOC
 /* ------------------------------------------------------------------------------------------------
  * Allocation accounting. glibc supports replacing the malloc family: libc's own internal calls
  * (strdup, fopen, getline, ...) come through these too. While rec_ctl.track is set, every block handed
@@ -136,3 +137,4 @@ __attribute__((visibility("default"))) void *realloc(void *o, size_t n)
 __attribute__((visibility("default"))) void *memalign(size_t a, size_t n) { void *p = __libc_memalign(a, n); if (rec_ctl.track) track_add(p); return p; }
 __attribute__((visibility("default"))) void *aligned_alloc(size_t a, size_t n) { return memalign(a, n); }
 __attribute__((visibility("default"))) int posix_memalign(void **r, size_t a, size_t n) { void *p = memalign(a, n); if (!p) return 12; *r = p; return 0; }
+#endif /* REC_NO_ALLOC: the sanitizer builds bring their own allocator */
